@@ -560,7 +560,7 @@ fn amplify(root: &Node, depth: usize, out: &mut Vec<Node>, rebuild: &dyn Fn(Node
 }
 
 /// Expected observation from the model's result record.
-fn predicted_end(res: &Value) -> String {
+pub fn predicted_end(res: &Value) -> String {
     match res["end"].as_str().unwrap_or("") {
         | "exit" => format!("exit {}", res["code"].as_i64().unwrap()),
         | "ret" => "ret".into(),
